@@ -52,7 +52,7 @@ for _f, _n in (("B1", 25), ("B2", 20), ("B3", 5)):
 for _f, _n in (("Q1", 20), ("Q2", 12), ("Q3", 4), ("Q4", 2), ("C1", 15), ("C2", 5)):
     reg(_f, getattr(cue, "rule_" + _f), _n)
 
-for _f, _n in (("I1", 10), ("I2", 6), ("I3", 3), ("I4", 5), ("I5", 6), ("I6", 60), ("O1", 6), ("R1", 1)):
+for _f, _n in (("I1", 10), ("I2", 6), ("I3", 3), ("I4", 5), ("I5", 6), ("I6", 60), ("I7", 1), ("O1", 6), ("R1", 1)):
     reg(_f, getattr(isolation, "rule_" + _f), _n)
 
 for _f, _n in (("F1", 3), ("F2", 3), ("F3", 3), ("F4", 2), ("F5", 10), ("F6", 15)):
@@ -115,21 +115,23 @@ PROPS = {
               "character, no trailing blank, directories not ending in '.' (N4); paths are built from export names only, joined under the destination, single write site (N5); "
               "each element gets exactly one name recomputed from the raw name (N7); pairing marks keyed by export names (P1); counter loop bounded (T1)." + NOT +
               "UNIQUENESS of paths within a run (depends on the whole sibling multiset; unclaimed clause)."),
-    "C07": _p(["S1", "S2", "S3", "S4p", "T1", "D1", "D2", "D3", "D4", "L1r"],
+    "C07": _p(["S1", "S2", "S3", "S4p", "T1", "D1", "D2", "D3", "D4", "L1r", "I6"],
               "Decides chain-resolution clauses: get_path appends the cursor before advancing to table[cursor].next, leaves exactly at .end, range test `>= len(table)` dominates the "
               "access, bounded counter advances on every back-edge path (S1, T1-COUNTER); out-of-range link stores raise InvalidFatDefinition (S2); concatenation addressing (S3); both "
               "decoders terminate on every table by the VISITED-WALK variant (T1), install links on every exit that is not justified by a malformed-table atom (D1) and only at END words "
               "/ directory-run ends (D3), with the documented constants (D2); the Roland cluster stream the chains are read from has the recorded offset / size "
-              "terms (L1r); a read spanning several sectors of the list takes them in list order, each exactly once (S4p)." + NOT + "the exhaustive table x start enumeration; the AKAI reserved-run rule beyond D1/D3. Known finding G7."),
+              "terms (L1r); a read spanning several sectors of the list takes them in list order, each exactly once (S4p); the table a file is "
+              "resolved in is the one of its own partition - shared construct objects keep no table from an earlier parse (I6)." + NOT + "the exhaustive table x start enumeration; the AKAI reserved-run rule beyond D1/D3. Known finding G7."),
     "C08": _p(["S5", "S7", "S3", "S4", "S6", "L2"],
               "Obligations on the 2 base methods and 9 override methods implementing every view kind: read amount = min(end-position, size) (0 if negative), position advances by exactly "
               "that amount, seek = clamp(base(whence)+offset, 0, end), no subclass overrides read/seek/tell/readall (S5); window and reversed translations incl. alignment errors and the "
               "reshape/flip idiom (S7); address maps as affine terms on every path (S3); split accounting, first/middle/last piece indices, zero-size guard, length check (S4); re-sync "
               "before every underlying read (S6); container windows: MDX offset = sizeof(header), size = eof - offset; MDF geometry (L2)." + NOT + "equality with a reference model over operation histories; empty views; short reads of the underlying file."),
-    "C09": _p(["C1", "C2", "S8", "S3", "L1c", "L2", "Q3", "Q2"],
+    "C09": _p(["C1", "C2", "S8", "S3", "S4p", "L1c", "L2", "Q3", "Q2", "Q1"],
               "Decides: detection cascade order and the stream each probe/parser receives (C1); data-track existential and CDDA branch (C2); every probe restores the borrowed stream's "
               "position on every normal exit (S8); MDF geometry 2352 = 16+2048+288, size = (n // 2352) * 2048 (S3); MDX window offset = sizeof(header), size = eof - offset; container "
-              "header layouts (L1c, L2); ASCII probe and fallbacks (Q3)." + NOT + "equality of ls/export across the five encodings."),
+              "header layouts (L1c, L2); ASCII probe and fallbacks (Q3); the 2048-byte user-data view reads through the same multi-sector split as every "
+              "other sector stream (S4p); the FILE line of a cue sheet is recognised whatever the quoted name contains (Q1)." + NOT + "equality of ls/export across the five encodings."),
     "C10": _p(["N6", "N1", "N2", "N4", "N7", "N8", "X1", "T1", "N10", "N11"],
               "Decides: listing shows safe_name of every child and lookup compares the same attribute through the same normaliser (N6); safe names exist and are de-duplicated at every "
               "level (N1, N2, N7) and are blank-stripped (N4); every lookup failure inside parse_path is converted to ErrorInvalidPath, ls prints it and returns; whole path stripped, "
@@ -141,10 +143,11 @@ PROPS = {
               "no subclass bypasses read (S5); parse-time probes restore positions (S8); shared partition / data-area windows have the recorded offset/size terms (L1a, L1r); the construct objects shared by all "
               "volumes keep no allocation table or stream from an earlier parse (I6)." + NOT +
               "the schedule enumeration; reads performed inside construct on the raw handle."),
-    "C12": _p(["P4", "P5", "P6"],
+    "C12": _p(["P4", "P5", "P6", "R1"],
               "Decides: zip / parallel indexing only combines lists of one index domain (per stream vs per channel), interprocedurally for the swap flags (P4); byte-order predicates vs "
               "system_byte_order and destination (P4); every stream reads n*frame_size bytes with one common n, blocks trimmed to whole frames of that stream, pass-through uses "
-              "buffer_sizes[0], stop conditions, channel-count check (P5); interleave / de-interleave idioms, end-padding, dtype table (P6)." + NOT + "numerical equality per frame; padding values."),
+              "buffer_sizes[0], stop conditions, channel-count check (P5); interleave / de-interleave idioms, end-padding, dtype table (P6); every source stream is "
+              "rewound with an absolute seek before it is read, so frame 0 of the output is frame 0 of the source (R1)." + NOT + "numerical equality per frame; padding values."),
     "C13": _p(["T1", "T2", "T3", "T4", "T5", "S9"],
               "Decides the termination/boundedness clauses visible in code shape: every `while` loop of the package carries a termination variant checked on every back-edge path of a "
               "hand-built CFG - COUNTER, BOUNDED-RAISE, LEN-CONSUME (with callee summaries), ITERATOR, VISITED-WALK, STREAM-PARSE (record consumption proven positive incl. the adapter's "
@@ -162,12 +165,12 @@ PROPS = {
               "Decides: a short sector read is detected on every returning path of SectorStream._read (S4e) and ends the data stream instead of aborting (S9); partition scan leaves its "
               "loop on the first unparsable header (T1-STREAM-PARSE exits); length prefixes wrap the streamed data (L1w); unreadable files are skipped without stopping the remaining ones "
               "(I1); whole-frame blocks (P5); the last CDDA track runs to the end of the file as it is (L8c)." + NOT + "prefix equality; which files are reported for which cut."),
-    "C16": _p(["I2", "I3", "R1", "N2", "N7", "S6", "S8", "N5", "N4", "L8r", "I6"],
+    "C16": _p(["I2", "I3", "R1", "N2", "N7", "S6", "S8", "N5", "N4", "L8r", "I6", "I7"],
               "Decides: accumulating / position-dependent realisers run once under a flag they always set (I2); no write-capable call outside the export path, inputs opened read-only "
               "(I3, N5); data streams are rewound before every export (R1); both actions install both naming routines before traversing, so what an operation sees does not depend on which "
               "ran first (N2); names recomputed from raw names (N7); no read depends on where an earlier operation left the shared cursor (S6, S8); name sanitising is a function of (raw name, "
               "file/directory flag) only (N4); Roland sample realisation derives its window from the stored stream without replacing it (L8r); construct singletons are not written "
-              "to after construction (I6)." + NOT +
+              "to after construction (I6); nothing stored on a (memoised) element is a one-shot iterator that the first traversal would use up (I7)." + NOT +
               "equality across operation histories; effects of context mutation in wrap_child_realization."),
     "C17": _p(["Q1", "Q2", "Q3", "Q4", "T1"],
               "Decides: the four line regexes are case-insensitive, tolerate leading blanks, match their keyword and capture the documented groups (Q1); blank lines are judged on the fully "
@@ -185,10 +188,10 @@ PROPS = {
               "from and saved back to the history arrays after the sample loop (F5); presets in common.py only bind constants and inherit the streaming methods (F6)." + NOT +
               "equality of outputs over splits; output length; numerical behaviour.",
               ["the shipped .so files correspond to the .pyx sources (Cython is absent; they cannot be rebuilt here)"]),
-    "C20": _p(["L1i", "L1ri", "L2", "L6", "T4", "L8c", "X1"],
+    "C20": _p(["L1i", "L1ri", "L2", "L6", "T4", "L8c", "X1", "S4p"],
               "Decides where each displayed value is read from and which key it lands in: evaluated layouts of AKAI sample header / loop table / program header / keygroup (symbolic in the "
               "zone count) / velocity zone and Roland sample parameter record incl. mapping tables, enum tables and Computed/If/Seek expressions vs the reviewed reference (L1i, L1ri, L2); "
               "dataclass <- struct field flow, positional constructor mapping, 0 -> 44100 default, active-loop selection over all 8 entries, itemize exclusions (L6); keygroup chain bounded "
               "by a 1-byte count (T4); CDDA track facts (L8c); padded tables (velocity zones) drop exactly the slots their predicate rejects, "
-              "at any position (L6)." + NOT + "rendering (80-column truncation, 300-line cap); float formatting."),
+              "at any position (L6); header and keygroup bytes of a file spread over several sectors are read in chain order (S4p)." + NOT + "rendering (80-column truncation, 300-line cap); float formatting."),
 }
